@@ -116,7 +116,7 @@ def drive_socket(case, data):
         # right; here: whatever the transfer coding, only intact frames of the *decoded* stream are delivered)
         from pv.checks import c12
 
-        step = max(1, case.get("chunk", 64))
+        step = max(1, case.get("chunk", 64), len(data) // 1500 + 1)  # at most ~1500 chunks (huge UBX items exist)
         wire, _ = c12.encode({"chunks": [data[i : i + step].hex() for i in range(0, len(data), step)], "enc": case["enc"], "hexcase": [0, 1], "terminator": bool(case.get("term", 1))})
         kw = {"encoding": c12.ENC[case["enc"]]}
     segs = streams.split(wire, [c for c in case["cuts"] if 0 < c < len(wire)])
@@ -130,7 +130,7 @@ def drive_socket(case, data):
             events.append("oserror")
         elif f == 3:
             events.append("oserror:connreset")
-    events.append("close")
+    events.append(case.get("end", "close"))  # "close": the peer closes; "dead": every further recv() fails with a reset
     sock = ScriptedSocket(events)
     sock.budget = 6 * len(wire) + 8 * len(events) + 256
     view = _SockView(sock)
@@ -138,7 +138,13 @@ def drive_socket(case, data):
     out = []
     raised = 0
     try:
-        rdr = RTCMReader(sock, validate=1, quitonerror=case["qoe"], parsed=True, bufsize=case["bufsize"], **kw)
+        if case.get("prewrap"):
+            # the application wraps the socket itself (SocketWrapper is public) and hands the wrapper to the reader
+            from pyrtcm.socketwrapper import SocketWrapper
+
+            rdr = RTCMReader(SocketWrapper(sock, bufsize=case["bufsize"], **kw), validate=1, quitonerror=case["qoe"], parsed=True)
+        else:
+            rdr = RTCMReader(sock, validate=1, quitonerror=case["qoe"], parsed=True, bufsize=case["bufsize"], **kw)
         guard = 0
         limit = 4 * len(wire) + 4 * len(data) + 4 * len(events) + 256
         while True:
@@ -205,6 +211,10 @@ def o_stream(case):
     cls = [f"qoe{case['qoe']}", "stream-" + case.get("stream", "scripted")]
     if case.get("enc"):
         cls.append("chunked-socket-" + case["enc"])
+    if case.get("end") == "dead":
+        cls.append("socket-dies")
+    if case.get("prewrap"):
+        cls.append("socket-wrapped-by-caller")
     if case.get("stream") == "socket" and stream.faults:
         cls.append("socket-timeout-or-error-mid-stream")
     hostile = any(k in ("damaged", "decoy") or i.get("arbitrary") or i.get("syncy") for k, i in zip(kinds, items))
@@ -255,7 +265,9 @@ def s_stream(draw, tier):
             "script": [],
             "qoe": draw(st.sampled_from([0, 1, 2])),
             "stream": "socket",
-            "cuts": streams.boundaries(items) if not extra and draw(st.integers(0, 3)) == 0 else draw(streams.partitions(n)),
+            "cuts": draw(st.sampled_from([streams.boundaries(items), streams.structure_cuts(items), streams.structure_cuts(items)])) if not extra and draw(st.integers(0, 1)) == 0 else draw(streams.partitions(n)),
+            "end": draw(st.sampled_from(["close", "close", "dead"])),
+            "prewrap": draw(st.integers(0, 3)) == 0,
             "faults": draw(st.lists(st.sampled_from([0, 0, 1, 1, 2, 3]), min_size=0, max_size=8)),
             "bufsize": draw(st.sampled_from([1, 3, 64, 512, 4096])),
         }
@@ -282,7 +294,7 @@ SUBS = [
         strategy=s_stream,
         examples=(300, 6000),
         rule="see property rule",
-        need={"stream-file": 1, "chunked-socket-gzip": 1, "chunked-socket-none": 1, "fault-inside-valid-frame": 1, "empty-read-inside-valid-frame": 1, "damaged": 1, "decoy:reserved-bits": 1, "decoy:lying-length": 1, "decoy:nested-ubx": 1, "decoy:jumbo-frame": 1, "decoy:split-behind-false-syncs": 1, "decoy:header-junk-rest": 1, "delivered": 10, "socket-timeout-or-error-mid-stream": 1},
+        need={"stream-file": 1, "decoy:zero-length-over-data": 1, "socket-dies": 1, "socket-wrapped-by-caller": 1, "chunked-socket-gzip": 1, "chunked-socket-none": 1, "fault-inside-valid-frame": 1, "empty-read-inside-valid-frame": 1, "damaged": 1, "decoy:reserved-bits": 1, "decoy:lying-length": 1, "decoy:nested-ubx": 1, "decoy:jumbo-frame": 1, "decoy:split-behind-false-syncs": 1, "decoy:header-junk-rest": 1, "delivered": 10, "socket-timeout-or-error-mid-stream": 1},
         sample=_sample,
     ),
     __import__("pv.fuzz.campaign", fromlist=["make"]).make("C01", ("C01",)),
